@@ -253,6 +253,9 @@ class Exporter:
                 if e.get("step") == "S":
                     self.sjobs.add(e["job"])
                     self.reads[e["job"]] = {}
+                    if self.started:
+                        kind = "validate" if e.get("kind") == "ValidateDynamicJob" else ("exec" if e.get("runs") else "skip")
+                        self.evs.append({"a": "kind", "k": kind})
             elif ev == "hashed":
                 if self.started and e["job"] in self.sjobs:
                     self.evs.append({"a": "hash"})
